@@ -598,4 +598,549 @@ theorem SharedInv_run (c : HCfg) (h : Heap) (root : Obj) (n : Nat) (s : HSt) (ho
 theorem SharedInv_final (c : HCfg) (h : Heap) (root : Obj) : SharedInv (hfinal c h root) :=
   SharedInv_run c h root _ _ (OInv_init root) (by intro id p k v hm; simp [hinit, afterExit] at hm)
 
+/-! ## tree level: research paths are retrievable with get_path -/
+
+def keysOf (kd : Kind) (i : Nat) : Items → List Key
+  | .nil => []
+  | .cons k _ r => effKey kd i k :: keysOf kd (i + 1) r
+
+mutual
+/-- the keys of every dict are pairwise distinct (a fact about every Python dict) -/
+def WFKeys : Val → Prop
+  | .leaf _ => True
+  | .node kd its => (kd = .dict → (keysOf kd 0 its).Nodup) ∧ WFKeysItems its
+def WFKeysItems : Items → Prop
+  | .nil => True
+  | .cons _ v r => WFKeys v ∧ WFKeysItems r
+end
+
+theorem keysOf_seq (kd : Kind) (hk : kd ≠ .dict) : (its : Items) → (i : Nat) →
+    ∀ k ∈ keysOf kd i its, ∃ j, i ≤ j ∧ k = .int j
+  | .nil, i => by simp [keysOf]
+  | .cons k v r, i => by
+    intro k' hk'
+    simp only [keysOf, List.mem_cons] at hk'
+    rcases hk' with h | h
+    · exact ⟨i, Nat.le_refl _, by simp [h, effKey, hk]⟩
+    · obtain ⟨j, hj, he⟩ := keysOf_seq kd hk r (i + 1) k' h
+      exact ⟨j, by omega, he⟩
+
+theorem keysOf_nodup_seq (kd : Kind) (hk : kd ≠ .dict) : (its : Items) → (i : Nat) →
+    (keysOf kd i its).Nodup
+  | .nil, i => by simp [keysOf]
+  | .cons k v r, i => by
+    simp only [keysOf, List.nodup_cons]
+    refine ⟨?_, keysOf_nodup_seq kd hk r (i + 1)⟩
+    intro hm
+    obtain ⟨j, hj, he⟩ := keysOf_seq kd hk r (i + 1) _ hm
+    simp only [effKey, hk, if_false] at he
+    injection he with he
+    omega
+
+theorem keysOf_nodup (kd : Kind) (its : Items) (h : kd = .dict → (keysOf kd 0 its).Nodup) :
+    (keysOf kd 0 its).Nodup := by
+  by_cases hk : kd = .dict
+  · exact h hk
+  · exact keysOf_nodup_seq kd hk its 0
+
+theorem lookupItems_mem (kd : Kind) (seg : Atom) : (its : Items) → (i : Nat) → (c : Val) →
+    lookupItems kd i seg its = some c → seg ∈ keysOf kd i its
+  | .nil, i, c, h => by simp [lookupItems] at h
+  | .cons k v r, i, c, h => by
+    simp only [lookupItems] at h
+    split at h
+    · rename_i he; simp [keysOf, he]
+    · simp [keysOf, lookupItems_mem kd seg r (i + 1) c h]
+
+mutual
+theorem log_val (v : Val) (p : Path) (k : Key) (e : Path × Key × Val) (hw : WFKeys v)
+    (he : e ∈ preLog p k v) :
+    ∃ q, e.1 ++ [e.2.1] = p ++ [k] ++ q ∧ (setOnPath v q = false → getPath v q = some e.2.2) := by
+  cases v with
+  | leaf a =>
+    simp only [preLog, List.mem_singleton] at he
+    subst he
+    exact ⟨[], by simp, by simp [getPath]⟩
+  | node kd its =>
+    simp only [preLog, List.mem_cons] at he
+    rcases he with he | he
+    · subst he
+      exact ⟨[], by simp, by simp [getPath]⟩
+    · simp only [WFKeys] at hw
+      obtain ⟨seg, q, c, h1, h2, h3⟩ := log_items its kd 0 (p ++ [k]) e hw.2 (keysOf_nodup kd its hw.1) he
+      refine ⟨seg :: q, by simpa using h1, ?_⟩
+      intro hs
+      simp only [setOnPath] at hs
+      split at hs
+      · simp at hs
+      · rename_i hset
+        rw [h2] at hs
+        simp only [getPath, getChild]
+        simp only [Bool.not_eq_true] at hset
+        simp [hset, h2, h3 hs]
+theorem log_items (its : Items) (kd : Kind) (i : Nat) (p : Path) (e : Path × Key × Val)
+    (hw : WFKeysItems its) (hn : (keysOf kd i its).Nodup) (he : e ∈ preLogItems p kd i its) :
+    ∃ seg q c, e.1 ++ [e.2.1] = p ++ seg :: q ∧ lookupItems kd i seg its = some c ∧
+      (setOnPath c q = false → getPath c q = some e.2.2) := by
+  cases its with
+  | nil => simp [preLogItems] at he
+  | cons k v r =>
+    simp only [preLogItems, List.mem_append] at he
+    simp only [WFKeysItems] at hw
+    simp only [keysOf, List.nodup_cons] at hn
+    rcases he with he | he
+    · obtain ⟨q, h1, h2⟩ := log_val v p (effKey kd i k) e hw.1 he
+      exact ⟨effKey kd i k, q, v, by simpa using h1, by simp [lookupItems], h2⟩
+    · obtain ⟨seg, q, c, h1, h2, h3⟩ := log_items r kd (i + 1) p e hw.2 hn.2 he
+      refine ⟨seg, q, c, h1, ?_, h3⟩
+      have hne : effKey kd i k ≠ seg := by
+        intro heq
+        exact hn.1 (heq ▸ lookupItems_mem kd seg r (i + 1) c h2)
+      simp [lookupItems, hne, h2]
+end
+
+theorem nested_paths_retrievable (kd : Kind) (its : Items) (hw : WFKeys (.node kd its))
+    (e : Path × Key × Val) (he : e ∈ nestedLog (.node kd its))
+    (hs : setOnPath (.node kd its) (e.1 ++ [e.2.1]) = false) :
+    getPath (.node kd its) (e.1 ++ [e.2.1]) = some e.2.2 := by
+  simp only [nestedLog] at he
+  simp only [WFKeys] at hw
+  obtain ⟨seg, q, c, h1, h2, h3⟩ := log_items its kd 0 [] e hw.2 (keysOf_nodup kd its hw.1) he
+  simp only [List.nil_append] at h1
+  rw [h1] at hs ⊢
+  simp only [setOnPath] at hs
+  split at hs
+  · simp at hs
+  · rename_i hset
+    rw [h2] at hs
+    simp only [Bool.not_eq_true] at hset
+    simp [getPath, getChild, hset, h2, h3 hs]
+
+/-! ## tree level: the default callbacks give an equal copy -/
+
+/-- `a` earlier than `b` in a set ⇒ they are not `==` -/
+def DistinctBy (eq : Val → Val → Bool) (l : List Val) : Prop := l.Pairwise fun a b => eq a b = false
+
+mutual
+/-- canonical form of a Python value: dict keys pairwise distinct, sequence items numbered
+    0, 1, 2, …, set members pairwise not `==` -/
+def Canon : Val → Prop
+  | .leaf _ => True
+  | .node kd its =>
+    CanonItems its ∧
+    (kd = .dict → (its.toList.map Prod.fst).Nodup) ∧
+    (kd ≠ .dict → its.toList = renumber 0 (its.toList.map Prod.snd)) ∧
+    (kd.isSet = true → DistinctBy valEqPy (its.toList.map Prod.snd))
+def CanonItems : Items → Prop
+  | .nil => True
+  | .cons _ v r => Canon v ∧ CanonItems r
+end
+
+def enumT (kd : Kind) (i : Nat) : Items → List (Key × Val)
+  | .nil => []
+  | .cons k v r => (effKey kd i k, v) :: enumT kd (i + 1) r
+
+theorem enumT_snd (kd : Kind) : (its : Items) → (i : Nat) →
+    (enumT kd i its).map Prod.snd = its.toList.map Prod.snd
+  | .nil, i => rfl
+  | .cons k v r, i => by simp [enumT, Items.toList, enumT_snd kd r (i + 1)]
+
+theorem enumT_dict : (its : Items) → (i : Nat) → enumT .dict i its = its.toList
+  | .nil, i => rfl
+  | .cons k v r, i => by simp [enumT, Items.toList, effKey, enumT_dict r (i + 1)]
+
+theorem ofList_toList : (its : Items) → ofList its.toList = its
+  | .nil => rfl
+  | .cons k v r => by simp [Items.toList, ofList, ofList_toList r]
+
+theorem dictInsert_fresh {V : Type} (k : Key) (v : V) (acc : List (Key × V))
+    (h : k ∉ acc.map Prod.fst) : dictInsert k v acc = acc ++ [(k, v)] := by
+  induction acc with
+  | nil => rfl
+  | cons x r ih =>
+    obtain ⟨k', v'⟩ := x
+    simp only [List.map_cons, List.mem_cons, not_or] at h
+    have hne : k' ≠ k := fun he => h.1 he.symm
+    simp [dictInsert, hne, ih h.2]
+
+theorem dictUpdate_nodup {V : Type} (acc l : List (Key × V))
+    (h : ((acc ++ l).map Prod.fst).Nodup) : dictUpdate acc l = acc ++ l := by
+  induction l generalizing acc with
+  | nil => simp [dictUpdate]
+  | cons x r ih =>
+    obtain ⟨k, v⟩ := x
+    have hk : k ∉ acc.map Prod.fst := by
+      intro hm
+      simp only [List.map_append, List.map_cons] at h
+      have := (List.nodup_append.1 h).2.2 k hm k (by simp)
+      exact this rfl
+    simp only [dictUpdate, dictInsert_fresh k v acc hk]
+    rw [ih (acc ++ [(k, v)]) (by simpa [List.append_assoc] using h)]
+    simp
+
+theorem memBy_false {V : Type} (eq : V → V → Bool) (x : V) (acc : List V)
+    (h : ∀ y ∈ acc, eq y x = false) : memBy eq x acc = false := by
+  induction acc with
+  | nil => rfl
+  | cons y r ih =>
+    simp only [memBy, Bool.or_eq_false_iff]
+    exact ⟨h y (by simp), ih fun z hz => h z (by simp [hz])⟩
+
+theorem dedupBy_distinct {V : Type} (eq : V → V → Bool) (acc l : List V)
+    (h : (acc ++ l).Pairwise fun a b => eq a b = false) : dedupBy eq acc l = acc ++ l := by
+  induction l generalizing acc with
+  | nil => simp [dedupBy]
+  | cons x r ih =>
+    have hx : memBy eq x acc = false := by
+      apply memBy_false
+      intro y hy
+      exact (List.pairwise_append.1 h).2.2 y hy x (by simp)
+    simp only [dedupBy, hx]
+    rw [show (if false = true then dedupBy eq acc r else dedupBy eq (acc ++ [x]) r)
+          = dedupBy eq (acc ++ [x]) r from rfl]
+    rw [ih (acc ++ [x]) (by simpa [List.append_assoc] using h)]
+    simp
+
+def copyCfg : Cfg := ⟨keepVisit, defaultExit⟩
+
+theorem build_canon (kd : Kind) (its : Items)
+    (hd : kd = .dict → (its.toList.map Prod.fst).Nodup)
+    (hs : kd ≠ .dict → its.toList = renumber 0 (its.toList.map Prod.snd))
+    (hq : kd.isSet = true → DistinctBy valEqPy (its.toList.map Prod.snd)) :
+    ofList (buildItems valEqPy kd (enumT kd 0 its)) = its := by
+  cases kd with
+  | dict =>
+    simp only [buildItems, enumT_dict]
+    rw [dictUpdate_nodup [] its.toList (by simpa using hd rfl)]
+    simpa using ofList_toList its
+  | list =>
+    simp only [buildItems, enumT_snd]
+    rw [← hs (by decide)]; exact ofList_toList its
+  | tuple =>
+    simp only [buildItems, enumT_snd]
+    rw [← hs (by decide)]; exact ofList_toList its
+  | set =>
+    simp only [buildItems, enumT_snd]
+    rw [dedupBy_distinct valEqPy [] _ (by simpa [DistinctBy] using hq rfl)]
+    simp only [List.nil_append]
+    rw [← hs (by decide)]; exact ofList_toList its
+  | fset =>
+    simp only [buildItems, enumT_snd]
+    rw [dedupBy_distinct valEqPy [] _ (by simpa [DistinctBy] using hq rfl)]
+    simp only [List.nil_append]
+    rw [← hs (by decide)]; exact ofList_toList its
+
+mutual
+theorem copy_val (p : Path) (k : Key) (v : Val) (hc : Canon v) : rebuildChild copyCfg p k v = v := by
+  cases v with
+  | leaf a => rfl
+  | node kd its =>
+    simp only [Canon] at hc
+    simp only [rebuildChild, copy_items (p ++ [k]) kd 0 its hc.1]
+    simp only [copyCfg, defaultExit, build_canon kd its hc.2.1 hc.2.2.1 hc.2.2.2]
+theorem copy_items (p : Path) (kd : Kind) (i : Nat) (its : Items) (hc : CanonItems its) :
+    rebuildItems copyCfg p kd i its = enumT kd i its := by
+  cases its with
+  | nil => rfl
+  | cons k v r =>
+    simp only [CanonItems] at hc
+    simp only [rebuildItems, copy_val p (effKey kd i k) v hc.1, copy_items p kd (i + 1) r hc.2, enumT]
+    simp [applyVisit, copyCfg, keepVisit]
+end
+
+theorem remapRec_copy (t : Val) (hc : Canon t) : remapRec copyCfg t = t := by
+  cases t with
+  | leaf a => rfl
+  | node kd its =>
+    simp only [Canon] at hc
+    simp only [remapRec, copy_items [] kd 0 its hc.1]
+    simp only [copyCfg, defaultExit, build_canon kd its hc.2.1 hc.2.2.1 hc.2.2.2]
+
+/-! ## heap level: the loop with its id-registry = the memoised recursive rebuild -/
+
+theorem hrun_stuck (c : HCfg) (h : Heap) (root : Obj) (s : HSt) (hs : hstep c h root s = none) (m : Nat) :
+    hrun c h root m s = s := by
+  cases m <;> simp [hrun, hs]
+
+theorem hrun_add (c : HCfg) (h : Heap) (root : Obj) (a b : Nat) (s : HSt) :
+    hrun c h root (a + b) s = hrun c h root b (hrun c h root a s) := by
+  induction a generalizing s with
+  | zero => simp [hrun]
+  | succ n ih =>
+    rw [Nat.succ_add]
+    simp only [hrun]
+    cases hs : hstep c h root s with
+    | none => simp [hrun_stuck c h root s hs]
+    | some s' => simp [ih]
+
+theorem finishItem_of_visitOut (c : HCfg) (s : HSt) (rest : List HFrame) (k : Key) (src val : Obj)
+    (its : List (Key × Obj)) (pp : Path) (acc : List (Key × Obj)) (nr : List (Path × List (Key × Obj)))
+    (hn : s.nis = (pp, acc) :: nr) (hv : visitOut c s.out s.path k val = some its) :
+    finishItem c s rest k src val =
+      { s with stack := rest, value := val, trace := s.trace ++ [.visit s.path k src val],
+               nis := (pp, acc ++ its) :: nr } := by
+  unfold visitOut at hv
+  unfold finishItem
+  split at hv
+  · injection hv with hv; subst hv
+    rename_i hvf; simp [hvf, appendItem, hn]
+  · injection hv with hv; subst hv
+    rename_i hvf; simp [hvf, hn]
+  · injection hv with hv; subst hv
+    rename_i hvf; simp [hvf, appendItem, hn]
+  · rename_i hvf
+    split at hv
+    · simp at hv
+    · injection hv with hv; subst hv
+      rename_i hr; simp [hvf, hr, appendItem, hn]
+
+def SimVal (c : HCfg) (h : Heap) (root : Obj) (n : Nat) : Prop :=
+  ∀ (p : Path) (k : Key) (o : Obj) (st st' : RSt) (v : Obj) (its : List (Key × Obj))
+    (rest : List HFrame) (pp : Path) (acc : List (Key × Obj)) (nr : List (Path × List (Key × Obj)))
+    (val : Obj),
+    recVal c h root n p k o st = some (st', v) → visitOut c st'.out p k v = some its →
+    ∃ m, hrun c h root m ⟨.item k o :: rest, p, st.reg, (pp, acc) :: nr, st.out, val, st.trace, none⟩ =
+      ⟨rest, p, st'.reg, (pp, acc ++ its) :: nr, st'.out, v, st'.trace ++ [.visit p k o v], none⟩
+
+def SimItems (c : HCfg) (h : Heap) (root : Obj) (n : Nat) : Prop :=
+  ∀ (p : Path) (items acc : List (Key × Obj)) (st st' : RSt) (acc' : List (Key × Obj))
+    (rest : List HFrame) (pp : Path) (nr : List (Path × List (Key × Obj))) (val : Obj),
+    recItems c h root n p items acc st = some (st', acc') →
+    ∃ m val', hrun c h root m ⟨itemFrames items ++ rest, p, st.reg, (pp, acc) :: nr, st.out, val, st.trace, none⟩ =
+      ⟨rest, p, st'.reg, (pp, acc') :: nr, st'.out, val', st'.trace, none⟩
+
+theorem hrun_one (c : HCfg) (h : Heap) (root : Obj) (s s' : HSt) (hs : hstep c h root s = some s') :
+    hrun c h root 1 s = s' := by
+  simp [hrun, hs]
+
+theorem simItems_succ (c : HCfg) (h : Heap) (root : Obj) (n : Nat)
+    (hv : SimVal c h root n) (hi : SimItems c h root n) : SimItems c h root (n + 1) := by
+  intro p items acc st st' acc' rest pp nr val hr
+  cases items with
+  | nil =>
+    simp only [recItems] at hr
+    injection hr with hr; injection hr with h1 h2; subst h1; subst h2
+    exact ⟨0, val, by simp [hrun, itemFrames]⟩
+  | cons x r =>
+    obtain ⟨k, o⟩ := x
+    simp only [recItems] at hr
+    split at hr
+    · simp at hr
+    · rename_i st1 v1 hrv
+      split at hr
+      · simp at hr
+      · rename_i its hvo
+        obtain ⟨m1, h1⟩ := hv p k o st st1 v1 its (itemFrames r ++ rest) pp acc nr val hrv hvo
+        obtain ⟨m2, val', h2⟩ := hi p r (acc ++ its) { st1 with trace := st1.trace ++ [.visit p k o v1] } st' acc'
+          rest pp nr v1 hr
+        refine ⟨m1 + m2, val', ?_⟩
+        rw [hrun_add]
+        simp only [itemFrames, List.map_cons, List.cons_append] at h1 ⊢
+        rw [h1]
+        exact h2
+
+theorem simVal_succ (c : HCfg) (h : Heap) (root : Obj) (n : Nat)
+    (hi : SimItems c h root n) : SimVal c h root (n + 1) := by
+  intro p k o st st' v its rest pp acc nr val hr hvo
+  simp only [recVal] at hr
+  cases o with
+  | atom a =>
+    simp only at hr
+    injection hr with hr; injection hr with h1 h2; subst h1; subst h2
+    refine ⟨1, ?_⟩
+    apply hrun_one
+    simp only [hstep]
+    rw [finishItem_of_visitOut c _ rest k (.atom a) (.atom a) its pp acc nr rfl hvo]
+  | ref id =>
+    simp only at hr
+    split at hr
+    · rename_i v0 hlk
+      injection hr with hr; injection hr with h1 h2; subst h1; subst h2
+      refine ⟨1, ?_⟩
+      apply hrun_one
+      simp only [hstep, hlk]
+      rw [finishItem_of_visitOut c _ rest k (.ref id) _ its pp acc nr rfl hvo]
+    · rename_i hlk
+      split at hr
+      · rename_i hnd
+        injection hr with hr; injection hr with h1 h2; subst h1; subst h2
+        refine ⟨1, ?_⟩
+        apply hrun_one
+        simp only [hstep, hlk, hnd]
+        rw [finishItem_of_visitOut c _ rest k (.ref id) (.ref id) its pp acc nr rfl hvo]
+      · rename_i nd hnd
+        split at hr
+        · simp at hr
+        · rename_i st2 items hri
+          injection hr with hr; injection hr with h1 h2; subst h1; subst h2
+          obtain ⟨m2, val', h2⟩ := hi _ _ _ _ st2 items (.exit k id st.out.length nd.kind :: rest) p
+            ((pp, acc) :: nr) val hri
+          refine ⟨1 + (m2 + 1), ?_⟩
+          have e1 : hrun c h root 1
+              ⟨.item k (.ref id) :: rest, p, st.reg, (pp, acc) :: nr, st.out, val, st.trace, none⟩ =
+              ⟨itemFrames (enumItems nd.kind 0 nd.items) ++ (.exit k id st.out.length nd.kind :: rest),
+               if Obj.ref id = root then p else p ++ [k], (id, .ref st.out.length) :: st.reg,
+               (p, []) :: (pp, acc) :: nr, st.out ++ [⟨nd.kind, []⟩], val,
+               st.trace ++ [.enter p k (.ref id) true], none⟩ := by
+            apply hrun_one
+            simp only [hstep, hlk, hnd]
+          rw [hrun_add, hrun_add, e1, h2]
+          apply hrun_one
+          simp only [hstep]
+          rw [finishItem_of_visitOut c _ rest k (.ref id) _ its pp acc nr rfl hvo]
+
+theorem sim_all (c : HCfg) (h : Heap) (root : Obj) (n : Nat) : SimVal c h root n ∧ SimItems c h root n := by
+  induction n with
+  | zero =>
+    constructor
+    · intro p k o st st' v its rest pp acc nr val hr; simp [recVal] at hr
+    · intro p items acc st st' acc' rest pp nr val hr; simp [recItems] at hr
+  | succ n ih =>
+    exact ⟨simVal_succ c h root n ih.2, simItems_succ c h root n ih.1 ih.2⟩
+
+theorem hrun_eq_of_halted (c : HCfg) (h : Heap) (root : Obj) (m b : Nat) (s f : HSt)
+    (hm : hrun c h root m s = f) (hf : hstep c h root f = none)
+    (hb : hstep c h root (hrun c h root b s) = none) : hrun c h root b s = f := by
+  have h1 : hrun c h root (m + b) s = f := by rw [hrun_add, hm, hrun_stuck c h root f hf]
+  have h2 : hrun c h root (b + m) s = hrun c h root b s := by rw [hrun_add, hrun_stuck c h root _ hb]
+  rw [Nat.add_comm] at h1
+  rw [← h2, h1]
+
+theorem hfinal_eq_recRoot (c : HCfg) (h : Heap) (root : Obj) (n : Nat) (st' : RSt) (v : Obj)
+    (hr : recRoot c h root n = some (st', v)) :
+    hfinal c h root = ⟨[], [], st'.reg, [], st'.out, v, st'.trace, none⟩ := by
+  unfold recRoot at hr
+  cases root with
+  | atom a => simp at hr
+  | ref id =>
+    simp only at hr
+    split at hr
+    · simp at hr
+    · rename_i nd hnd
+      split at hr
+      · simp at hr
+      · rename_i st2 items hri
+        injection hr with hr; injection hr with h1 h2; subst h1; subst h2
+        obtain ⟨m2, val', h2⟩ := (sim_all c h (.ref id) n).2 _ _ _ _ st2 items
+          [.exit .none id 0 nd.kind] [] [] (.ref id) hri
+        have e1 : hrun c h (.ref id) 1 (hinit (.ref id)) =
+            ⟨itemFrames (enumItems nd.kind 0 nd.items) ++ [.exit .none id 0 nd.kind], [],
+             [(id, .ref 0)], [([], [])], [⟨nd.kind, []⟩], .ref id, [.enter [] .none (.ref id) true], none⟩ := by
+          apply hrun_one
+          simp [hstep, hinit, lookup, hnd]
+        apply hrun_eq_of_halted c h (.ref id) (1 + (m2 + 1)) (hbound h) (hinit (.ref id))
+        · rw [hrun_add, hrun_add, e1, h2]
+          apply hrun_one
+          simp [hstep]
+        · simp [hstep]
+        · exact hfinal_halted c h (.ref id)
+
+/-! the recursion itself returns (fuel `hbound h` suffices) unless a visit raises -/
+
+def TInvR (h : Heap) (todo : List Nat) (st : RSt) : Prop :=
+  ∀ id nd, h[id]? = some nd → lookup id st.reg = none → id ∈ todo
+
+def NoRaise (c : HCfg) : Prop := ∀ out p k v, visitOut c out p k v ≠ none
+
+def TermVal (c : HCfg) (h : Heap) (root : Obj) (n : Nat) : Prop :=
+  ∀ (p : Path) (k : Key) (o : Obj) (st : RSt) (todo : List Nat),
+    TInvR h todo st → costSum h todo + 1 ≤ n →
+    ∃ st' v todo', recVal c h root n p k o st = some (st', v) ∧ TInvR h todo' st' ∧
+      costSum h todo' ≤ costSum h todo
+
+def TermItems (c : HCfg) (h : Heap) (root : Obj) (n : Nat) : Prop :=
+  ∀ (p : Path) (items acc : List (Key × Obj)) (st : RSt) (todo : List Nat),
+    TInvR h todo st → costSum h todo + items.length + 1 ≤ n →
+    ∃ st' acc' todo', recItems c h root n p items acc st = some (st', acc') ∧ TInvR h todo' st' ∧
+      costSum h todo' ≤ costSum h todo
+
+theorem enumItems_length (kd : Kind) (l : List (Key × Obj)) (i : Nat) :
+    (enumItems kd i l).length = l.length := by
+  induction l generalizing i with
+  | nil => rfl
+  | cons x r ih => obtain ⟨a, b⟩ := x; simp [enumItems, ih]
+
+theorem termItems_succ (c : HCfg) (h : Heap) (root : Obj) (hnr : NoRaise c) (n : Nat)
+    (hv : TermVal c h root n) (hi : TermItems c h root n) : TermItems c h root (n + 1) := by
+  intro p items acc st todo ht hn
+  cases items with
+  | nil => exact ⟨st, acc, todo, by simp [recItems], ht, Nat.le_refl _⟩
+  | cons x r =>
+    obtain ⟨k, o⟩ := x
+    simp only [List.length_cons] at hn
+    obtain ⟨st1, v1, todo1, h1, ht1, hc1⟩ := hv p k o st todo ht (by omega)
+    cases hvo : visitOut c st1.out p k v1 with
+    | none => exact absurd hvo (hnr _ _ _ _)
+    | some its =>
+      obtain ⟨st2, acc2, todo2, h2, ht2, hc2⟩ :=
+        hi p r (acc ++ its) { st1 with trace := st1.trace ++ [.visit p k o v1] } todo1 ht1 (by omega)
+      exact ⟨st2, acc2, todo2, by simp only [recItems, h1, hvo, h2], ht2, by omega⟩
+
+theorem termVal_succ (c : HCfg) (h : Heap) (root : Obj) (n : Nat)
+    (hi : TermItems c h root n) : TermVal c h root (n + 1) := by
+  intro p k o st todo ht hn
+  cases o with
+  | atom a =>
+    exact ⟨{ st with trace := st.trace ++ [.enter p k (.atom a) false] }, .atom a, todo,
+      by simp only [recVal], ht, Nat.le_refl _⟩
+  | ref id =>
+    cases hlk : lookup id st.reg with
+    | some v0 => exact ⟨st, v0, todo, by simp only [recVal, hlk], ht, Nat.le_refl _⟩
+    | none =>
+      cases hnd : h[id]? with
+      | none =>
+        exact ⟨{ st with trace := st.trace ++ [.enter p k (.ref id) false] }, .ref id, todo,
+          by simp only [recVal, hlk, hnd], ht, Nat.le_refl _⟩
+      | some nd =>
+        have hm : id ∈ todo := ht id nd hnd hlk
+        have hc := costSum_erase h todo id hm
+        have hcost : cost h id = nd.items.length + 2 := by simp [cost, hnd, nodeCost]
+        have ht1 : TInvR h (todo.erase id)
+            ⟨(id, .ref st.out.length) :: st.reg, st.out ++ [⟨nd.kind, []⟩],
+             st.trace ++ [.enter p k (.ref id) true]⟩ := by
+          intro id' nd' hn' hl
+          have := lookup_cons_none hl
+          exact (List.mem_erase_of_ne (Ne.symm this.1)).2 (ht id' nd' hn' this.2)
+        obtain ⟨st2, items, todo2, h2, ht2, hc2⟩ :=
+          hi (if Obj.ref id = root then p else p ++ [k]) (enumItems nd.kind 0 nd.items) [] _ _ ht1
+            (by rw [enumItems_length]; omega)
+        refine ⟨⟨(id, (exitNode nd.kind st.out.length items st2.out).2) :: st2.reg,
+                  (exitNode nd.kind st.out.length items st2.out).1, st2.trace ++ [.exit id]⟩,
+                (exitNode nd.kind st.out.length items st2.out).2, todo2,
+                by simp only [recVal, hlk, hnd, h2], ?_, by omega⟩
+        intro id' nd' hn' hl
+        exact ht2 id' nd' hn' (lookup_cons_none hl).2
+
+theorem term_all (c : HCfg) (h : Heap) (root : Obj) (hnr : NoRaise c) (n : Nat) :
+    TermVal c h root n ∧ TermItems c h root n := by
+  induction n with
+  | zero =>
+    constructor
+    · intro p k o st todo ht hn; omega
+    · intro p items acc st todo ht hn; omega
+  | succ n ih =>
+    exact ⟨termVal_succ c h root n ih.2, termItems_succ c h root hnr n ih.1 ih.2⟩
+
+theorem recRoot_returns (c : HCfg) (h : Heap) (id : Nat) (nd : Node) (hnr : NoRaise c)
+    (hnd : h[id]? = some nd) : ∃ st' v, recRoot c h (.ref id) (hbound h) = some (st', v) := by
+  have hm : id ∈ List.range h.length := by
+    rcases Nat.lt_or_ge id h.length with hlt | hge
+    · simpa using hlt
+    · simp [List.getElem?_eq_none hge] at hnd
+  have hc := costSum_erase h (List.range h.length) id hm
+  have hcost : cost h id = nd.items.length + 2 := by simp [cost, hnd, nodeCost]
+  have ht1 : TInvR h ((List.range h.length).erase id)
+      ⟨[(id, .ref 0)], [⟨nd.kind, []⟩], [.enter [] .none (.ref id) true]⟩ := by
+    intro id' nd' hn' hl
+    have := lookup_cons_none hl
+    refine (List.mem_erase_of_ne (Ne.symm this.1)).2 ?_
+    rcases Nat.lt_or_ge id' h.length with hlt | hge
+    · simpa using hlt
+    · simp [List.getElem?_eq_none hge] at hn'
+  obtain ⟨st2, items, todo2, h2, _, _⟩ :=
+    (term_all c h (.ref id) hnr (hbound h)).2 [] (enumItems nd.kind 0 nd.items) [] _ _ ht1
+      (by rw [enumItems_length, costSum_range] at *; simp only [hbound]; omega)
+  simp only [recRoot, hnd, h2]
+  exact ⟨_, _, rfl⟩
+
 end C08
